@@ -455,7 +455,24 @@ func sortTablesData(t, t2 *Table, bs []string) {
 // for both provided rows.
 func joinable(r1, r2 Row, bs map[string]bool) bool {
 	for k := range bs {
-		if !reflect.DeepEqual(r1[k], r2[k]) {
+		c1, c2 := r1[k], r2[k]
+		if c1 != nil && c2 != nil {
+			// Time anchors are compared as instants: the same anchor may be
+			// written in another time zone.
+			if c1.T != nil && c2.T != nil {
+				if !c1.T.Equal(*c2.T) {
+					return false
+				}
+				continue
+			}
+			if c1.P != nil && c2.P != nil {
+				if c1.P.UUID().String() != c2.P.UUID().String() {
+					return false
+				}
+				continue
+			}
+		}
+		if !reflect.DeepEqual(c1, c2) {
 			return false
 		}
 	}
